@@ -185,11 +185,11 @@ func TestVerifLabelHistory(t *testing.T) {
 			case "Open":
 				tcp[st.C] = m.AddOpenTCPConnection(&vfTCPConn{local: vfListeners[st.C%2], remote: vfTCPAddr(st.IP)})
 			case "Auth":
-				tcp[st.C].AddAuthenticated(vfKey(st.Key))
+				tcp[st.C].AddAuthenticated(vfPlainKey(st.Key))
 			case "Close":
 				tcp[st.C].AddClosed("OK", metrics.ProxyMetrics{ClientProxy: 10 * n, ProxyTarget: 9 * n, TargetProxy: 20 * n, ProxyClient: 21 * n}, time.Duration(n)*time.Second)
 			case "NatAdd":
-				udp[st.C] = m.AddUDPNatEntry(vfUDPAddr(st.IP), vfKey(st.Key))
+				udp[st.C] = m.AddUDPNatEntry(vfUDPAddr(st.IP), vfPlainKey(st.Key))
 			case "Packet":
 				udp[st.C].AddPacketFromClient("OK", 30+n, 20+n)
 				udp[st.C].AddPacketFromTarget("OK", 40+n, 50+n)
